@@ -28,6 +28,7 @@ CHECKS = {
 CHECKS["C17"] = {
     "engine": "sched",
     "harness": "c17",
+    "race_probe": {"harness": "c17race", "budget": {"quick": 5, "thorough": 60}},
     "fnentry_pkgs": ["github.com/specterops/dawgs/query"],
     "packages": ["traversal", "util", "util/channels", "util/atomics", "graph", "ops", "graphcache", "cardinality", "cache"],
     "level": "exploration",
